@@ -5,8 +5,17 @@
    sequence of the run of the same reader with nothing buffered (buffered masters nested in each other included).
    The run with nothing buffered yields more items, so it alone can be cut by the per-run item limit (4 * input length + 64);
    the statement therefore comes in three forms: up to that cut, under "the unbuffered run is not cut", and under "the
-   unrolled sequence is shorter than the limit".  C08_limit_ex shows the side condition is needed. *)
-From Ebml Require Import Base Tools Spec Reader Pure Proofs.Tactics Proofs.RollUp Proofs.Nesting Proofs.BufferSim.
+   unrolled sequence is shorter than the limit".  C08_limit_ex shows the side condition is needed.
+   The error directions (Proofs/BufferSimErr.v), for readers that close the open masters at the end of the input
+   (c_emit_eof = true; with that option off an input ending inside a buffered master is the recorded defect "buffer_master is
+   not resumable"), on well-formed bytes and a specification whose path ids are masters (no panic site, no budget outcome):
+   if the run with nothing buffered ends cleanly so does the buffered run (C08_clean_stays_clean; its unrolling is then the
+   unbuffered tag sequence); if it ends in an error the buffered run ends in the same error after items whose unrolling is a
+   prefix of the unbuffered items (C08_error_prefix; what is missing is the Start and the partial children of the buffered
+   masters open at the error).  The "master never ended" error of buffer_master is unreachable (C08_master_end_found).
+   C08_error_ex: a buffered master whose third child is corrupted. *)
+From Ebml Require Import Base Tools Spec Reader Pure Proofs.Tactics Proofs.NoPanic Proofs.RollUp Proofs.Nesting Proofs.BufferSim
+  Proofs.BufferSimErr.
 
 (* the Full item a buffered master becomes unrolls to its Start, the flattening of the items queued for it, and its End *)
 Theorem C08_unroll_rollup_partial : forall tid children, Bal children ->
@@ -130,3 +139,63 @@ Proof.
   cbv zeta. split; [|vm_compute; repeat split; reflexivity].
   apply Forall_forall. vm_compute. repeat constructor.
 Qed.
+
+(* ------------------------------------------------------------------ the error directions *)
+(* [is_item o]: o is an OItem.  A clean run with nothing buffered means a clean run with the buffered set *)
+Theorem C08_clean_stays_clean : forall c input items,
+  c_emit_eof c = true -> implied_ok (c_sp c) -> wf_bytes input ->
+  p_run (unbuffered c) input [RAll] = items ++ [ONone] -> Forall is_item items ->
+  exists items', p_run c input [RAll] = items' ++ [ONone] /\ Forall is_item items' /\
+                 flat (out_tags items') = out_tags items.
+Proof. exact clean_stays_clean. Qed.
+
+(* a run with nothing buffered that ends in an error means a buffered run ending in the same error, after items whose
+   unrolling is a prefix of the unbuffered items *)
+Theorem C08_error_prefix : forall c input items e,
+  c_emit_eof c = true -> implied_ok (c_sp c) -> wf_bytes input ->
+  p_run (unbuffered c) input [RAll] = items ++ [OErr e] -> Forall is_item items ->
+  exists items' rest, p_run c input [RAll] = items' ++ [OErr e] /\ Forall is_item items' /\
+                      out_tags items = flat (out_tags items') ++ rest.
+Proof. exact error_prefix. Qed.
+
+(* the same with "no panic site / budget outcome in the buffered run" ([nobad]) as the hypothesis, and with offsets *)
+Theorem C08_clean_stays_clean_gen : forall c input items,
+  c_emit_eof c = true -> nobad (p_run c input [RAll]) ->
+  p_run (unbuffered c) input [RAll] = items ++ [ONone] -> Forall is_item items ->
+  exists items', p_run c input [RAll] = items' ++ [ONone] /\ Forall is_item items' /\
+                 Unr (out_items items') (out_items items) /\ flat (out_tags items') = out_tags items.
+Proof. exact clean_stays_clean_gen. Qed.
+
+Theorem C08_error_prefix_gen : forall c input items e,
+  c_emit_eof c = true -> nobad (p_run c input [RAll]) ->
+  p_run (unbuffered c) input [RAll] = items ++ [OErr e] -> Forall is_item items ->
+  exists items' T extra, p_run c input [RAll] = items' ++ [OErr e] /\ Forall is_item items' /\
+    Unr (out_items items') T /\ out_items items = T ++ extra /\
+    out_tags items = flat (out_tags items') ++ qtags extra.
+Proof. exact error_prefix_gen. Qed.
+
+(* with end-of-input closing, buffer_master never reports "the master never ended": while the buffered master F is open (no
+   End of F among the items [ch] queued since its Start) every read_next makes the queue longer, so the branch that pushes
+   REof tag_start (Some tid) None None is not taken *)
+Theorem C08_master_end_found : forall c, c_emit_eof c = true -> forall f F S0 ch st,
+  mem_id (f_id F) (c_buffered c) = true -> no_end (f_id F) (qtags ch) -> Tr (c_buffered c) (F :: S0) ch (b_stack st) ->
+  b_bad (p_read_next f c st) = None ->
+  (length (b_queue (p_read_next f c st)) <=? length (b_queue st))%nat = false.
+Proof. exact bm_reads_grow. Qed.
+
+(* Root{ e = 5, A{ x = 7, x = 8, <unknown id 0x4110> } } with A buffered, unknown ids rejected: the run with nothing buffered
+   yields Start(A) and the two children before the error; the buffered run yields the items before A and the same error (the
+   partial children are dropped) *)
+Example C08_error_ex :
+  let sp := [ {| e_id := 129; e_ty := DMaster; e_path := [] |}; {| e_id := 16643; e_ty := DMaster; e_path := [PId 129] |};
+              {| e_id := 16644; e_ty := DUInt; e_path := [PId 129] |};
+              {| e_id := 16642; e_ty := DUInt; e_path := [PId 129; PId 16643] |} ] in
+  let c := {| c_sp := sp; c_allow_id := false; c_allow_hier := false; c_allow_over := false; c_max := Some 4000000000;
+              c_buffered := [16643]; c_emit_eof := true |} in
+  let input := [129; 147; 65; 4; 129; 5; 65; 3; 140; 65; 2; 129; 7; 65; 2; 129; 8; 65; 16; 129; 9] in
+  p_run (unbuffered c) input [RAll] =
+    [OItem (TStart 129) 0; OItem (TElem 16644 (VU 5)) 2; OItem (TStart 16643) 6; OItem (TElem 16642 (VU 7)) 9;
+     OItem (TElem 16642 (VU 8)) 13; OErr (RInvalidTagId 17 16656)] /\
+  p_run c input [RAll] =
+    [OItem (TStart 129) 0; OItem (TElem 16644 (VU 5)) 2; OErr (RInvalidTagId 17 16656)].
+Proof. vm_compute. split; reflexivity. Qed.
